@@ -68,7 +68,13 @@ class Block:
         elif k == "switch":
             for v, b in t["arms"]:
                 succ.append(("sw:%d" % v, b))
-            succ.append(("otherwise", t["otherwise"]))
+            # canonical labels: a two-way switch written with one explicit arm (`if x`, `if let Some(..)`,
+            # `match` with a wildcard) gets the complementary value as the label of its other edge, so that
+            # rules can say sw:0 / sw:1 (false/true, None/Some, Ok/Err) regardless of the source form.
+            if len(t["arms"]) == 1 and t["arms"][0][0] in (0, 1):
+                succ.append(("sw:%d" % (1 - t["arms"][0][0]), t["otherwise"]))
+            else:
+                succ.append(("otherwise", t["otherwise"]))
         elif k == "drop":
             succ.append(("drop", t["to"]))
         elif k == "call":
